@@ -68,14 +68,14 @@ def make_check(name, param):
   return getattr(rs, name)()
 
 
-def helper_record(sid, fn_name, a, rng):
+def helper_record(sid, fn_name, a, rng, full_steps=False):
   from paranoid_crypto.lib import rsa_util, special_case_factoring
   n = gmpy2.mpz(a.meta['n'])
   rec = {'sid': sid, 'ev': 'helper', 'fn': fn_name, 'cls': a.cls, 'raised': 'none', 'obs': {}}
   try:
     pair = True
     if fn_name == 'FermatFactor':
-      res = rsa_util.FermatFactor(n, rng.choice([0, 1, 1000, 100000]))
+      res = rsa_util.FermatFactor(n, 100000 if full_steps else rng.choice([0, 1, 1000, 100000]))
       fl = list(res) if res else None
     elif fn_name == 'FactorHighAndLowBitsEqual':
       res = rsa_util.FactorHighAndLowBitsEqual(n)
@@ -167,6 +167,48 @@ def run_cell(args):
     rng = random.Random(hashlib.sha1((sid).encode()).hexdigest())
     if cell['kind'] == 'aggregate':
       return sid, aggregate_records(sid, cell['mod'], cell['param'], rng), None
+    if cell['kind'] == 'population':
+      bits = int(cell['mod'])
+      recs = []
+      for j in range(500 if cell['check'] == 'FermatFactor' and bits == 64 else 120):
+        pp = art.rand_prime_top2(rng, bits // 2)
+        qq = art.rand_prime_top2(rng, bits - bits // 2)
+        a = checks.Art('k', 'rsa', art.rsa_key(pp * qq), 'pop%d' % bits, n=pp * qq, p=pp, q=qq, crit={})
+        recs.append(helper_record('%s-%d' % (sid, j), cell['check'], a, rng, full_steps=True))
+      return sid, recs, None
+    if cell['kind'] == 'batch':
+      fam = {'CheckFermat': 'fermat', 'CheckHighAndLowBitsEqual': 'highlow', 'CheckContinuedFractions': 'cf', 'CheckBitPatterns': 'pattern',
+             'CheckPermutedBitPatterns': 'permuted', 'CheckPollardpm1': 'pm1', 'CheckLowHammingWeight': 'lhw', 'CheckUnseededRand': 'unseeded',
+             'CheckSmallUpperDifferences': 'upperdiff'}.get(cell['check'], 'fermat')
+      mods = [fam, 'bits64', 'bits100', 'bits151', 'prime', 'healthy', 'small']
+      batch = []
+      for j, m in enumerate(mods):
+        if m in ('bits100', 'bits151'):
+          b_ = int(m[4:])
+          nn = art.rand_prime_top2(rng, b_ // 2) * art.rand_prime_top2(rng, b_ - b_ // 2)
+          k = checks.Art('k%d' % j, 'rsa', art.rsa_key(nn), 'deg-' + m, n=nn, e=65537, crit={c: 'may' for c in gen.RSA_CHECKS})
+        else:
+          k = build_mod(m, rng)
+          if k is None:
+            continue
+          k.aid = 'k%d' % j
+        batch.append(k)
+      if cell['check'] == 'ALLSINGLE':
+        single = paranoid.GetRSASingleChecks()
+        names = list(single)
+        objs = list(single.values())
+      else:
+        names = [cell['check']]
+        objs = [make_check(cell['check'], cell['param'])]
+      protos = [k.proto for k in batch]
+      def fnb():
+        ret = False
+        for o in objs:
+          ret = o.Check(protos) or ret
+        return ret
+      rec = checks.record_call(sid, 'rsa', batch, fnb, names, {k.aid: k.meta['crit'] for k in batch})
+      rec['scenario'] = {'cell': cell, 'classes': [k.cls for k in batch]}
+      return sid, [rec], None
     a = build_mod(cell['mod'], rng)
     if a is None:
       return sid, [], 'empty'
